@@ -1,7 +1,7 @@
 """
 C08 - interpolants reproduce their data (SplineInterpolator1D / SplineInterpolator2D).
 
-Proof: Props/C08.v (InterpModel.v / InterpTheory.v / Interp2D.v / GrevilleTheory.v / InterpQc.v on top of the spline model of C07).
+Proof: Props/C08.v (InterpModel.v / InterpTheory.v / Interp2D.v / GrevilleTheory.v / MarsdenTheory.v / EndValueTheory.v / InterpQc.v on top of the spline model of C07).
 
 Tie.  spline_interpolators.py and splines.py are numpy/scipy-level code (LAPACK, SuperLU): they are run
 as they are, on binary64, and every double they produce (knots, Greville points, collocation matrix,
@@ -735,9 +735,6 @@ def run_all(chk):
 
 
 UNCOVERED = [
-    'polynomials of degree 2..p are reproduced everywhere on clamped spaces: not proved (Marsden identity not formalised); degree 0 '
-    '(c08_interp1d_const + c08_const_spline) and degree 1 (c08_interp1d_reproduces_linear, Greville identity) are proved; degrees '
-    '2..5 tested exactly on the model and within the bound on the code',
     'non-singularity of the collocation matrix for all admissible spaces (Schoenberg-Whitney) is not formalised: theorems that '
     'need uniqueness carry the certificate ip_inverse_ok, the solver returns an error on a singular matrix',
     'rounding, LAPACK ?gbtrf/?gbtrs and SuperLU are not modelled: the float results are compared with the exact ones under '
